@@ -110,10 +110,13 @@ func r062(c *Ctx) {
 	recvCalls := 0
 	for _, cs := range callsIn(cwo) {
 		if f := cs.common().StaticCallee(); f != nil && recvNamed(f) != nil && recvNamed(f).Obj().Name() == "Service" && cs.common().Args[0] == ssa.Value(cwo.Params[0]) {
-			recvCalls++
+			// read-only accessors of the installed service are fine; anything that can write through its receiver is not
+			if f.Blocks == nil || paramMayBeWritten(c.World, f.Params[0], 0) {
+				recvCalls++
+			}
 		}
 	}
-	c.ob(rule, "CopyWithOptions/no-method-call-on-the-installed-service", cwo.Pos(), recvCalls == 0, true, "")
+	c.ob(rule, "CopyWithOptions/no-mutating-method-call-on-the-installed-service", cwo.Pos(), recvCalls == 0, true, "only read-only accessors of the installed service may be called while building the copy")
 	// (b) initialize assigns derived fields only after both constructors succeeded
 	ini := c.method("Service", "initialize")
 	ccm, cmw := c.method("Service", "createCertManager"), c.method("Service", "createMiddleware")
